@@ -157,8 +157,8 @@ def judge(case, im, mo):
     if 'plot_exc' in im:
         nsel0 = min(case['nsel'], len(rec['chi2']))
         smallest = min(min(case['theta']) * 10.0 ** rec['sc'][i] * 1000.0 for i in range(nsel0)) if nsel0 else None
-        if 'too small' in im['plot_exc'] and pkg['aps'] is not None and smallest is not None and smallest < pkg['aps'][0] * (1 + 1e-9):
-            return dict(disagree=[], fail=[], nontrivial=False, tags=tags + ['aperture-on-table-edge'])
+        if 'too small' in im['plot_exc'] and pkg['aps'] is not None and smallest is not None and smallest < pkg['aps'][0] * (1 - 1e-10):
+            return dict(disagree=[], fail=[], nontrivial=False, tags=tags + ['aperture-below-table'])       # genuinely below the table: a legitimate refusal
         return dict(disagree=['plot raised ' + im['plot_exc']], fail=['raised: plot raised %s although the fit itself was made at these apertures' % im['plot_exc']],
                     nontrivial=False, tags=tags + ['raised'])
     ncur, ua = _curves_per_fit(case)
